@@ -67,22 +67,33 @@ def freeze(x):
     return ('repr', repr(x))
 
 
+def _attrs_of(o):
+    """the metadata dictionary without side effects ({} when it does not exist yet: a dictionary created lazily is no change)"""
+    d = o.__dict__.get('_attrs', None) if hasattr(o, '__dict__') else None
+    if d is None and '_attrs' not in getattr(o, '__dict__', {}):
+        try:
+            d = o.attrs
+        except Exception:
+            d = None
+    return d if d is not None else {}
+
+
 def snap_axis(ax):
     if isinstance(ax, MultiAxis):
         # lazily built caches (_values, _size) are not part of the observable state: populating them is not a mutation
         # (a *stale* cache is M-WF's business)
         return ('MAX', ax._name, tuple(snap_axis(m) for m in list.__iter__(ax.axes)),
                 freeze(ax.__dict__.get('_attrs', {})))
-    return ('AX', ax._name, freeze(ax._values), freeze(ax._attrs))
+    return ('AX', ax._name, freeze(ax._values), freeze(_attrs_of(ax)))
 
 
 def snap_da(a):
-    return ('DA', freeze(a._values), tuple(snap_axis(ax) for ax in list.__iter__(a._axes)), freeze(a._attrs))
+    return ('DA', freeze(a._values), tuple(snap_axis(ax) for ax in list.__iter__(a._axes)), freeze(_attrs_of(a)))
 
 
 def snap_ds(ds):
     return ('DS', tuple((k, snap_da(dict.__getitem__(ds, k))) for k in dict.keys(ds)),
-            tuple(snap_axis(ax) for ax in list.__iter__(ds._axes)), freeze(ds._attrs))
+            tuple(snap_axis(ax) for ax in list.__iter__(ds._axes)), freeze(_attrs_of(ds)))
 
 
 def snapshot(obj):
@@ -303,7 +314,7 @@ def axis_sentinel(dim):
 
 def meta_ok(obj, expect):
     """expect: 'carry' | 'drop' ; returns problem text or None"""
-    attrs = obj._attrs
+    attrs = _attrs_of(obj)
     if expect == 'carry':
         if freeze(attrs) != freeze(sentinel_attrs()):
             return "metadata not carried: attrs=%r" % (attrs,)
